@@ -460,6 +460,17 @@ class FuncOrder(object):
         elif isinstance(s, ast.If):
             self.t(s.test)
             e0 = dict(self.env)
+            # isinstance(x, set / frozenset / (.., set, ..)): in the body x is a collection in
+            # hash order, wherever it came from (a run-time value of an expression)
+            tst = s.test
+            if isinstance(tst, ast.Call) and isinstance(tst.func, ast.Name) and \
+                    tst.func.id == "isinstance" and len(tst.args) == 2 and isinstance(
+                        tst.args[0], ast.Name):
+                tys = tst.args[1].elts if isinstance(tst.args[1], (ast.Tuple, ast.List)) \
+                    else [tst.args[1]]
+                if any(isinstance(t_, ast.Name) and t_.id in ("set", "frozenset") for t_ in tys):
+                    self.env[tst.args[0].id] = "S"
+                    self.an.n_sources = getattr(self.an, "n_sources", 0)
             self.block(s.body)
             e1 = self.env
             self.env = dict(e0)
@@ -473,6 +484,16 @@ class FuncOrder(object):
             lv = [x.id for x in ast.walk(s.target) if isinstance(x, ast.Name)]
             if hot:
                 self.loop_hot = True
+                # locals computed from the loop variables inside the body depend on them too
+                dep = set(lv)
+                for _ in range(3):
+                    for a_ in ast.walk(s):
+                        if isinstance(a_, ast.Assign) and any(
+                                isinstance(x, ast.Name) and x.id in dep for x in ast.walk(a_.value)):
+                            for t_ in a_.targets:
+                                dep |= {x.id for x in ast.walk(t_) if isinstance(x, ast.Name)
+                                        and isinstance(x.ctx, ast.Store)}
+                lv = sorted(dep)
                 self.loop_vars = tuple(self.loop_vars) + tuple(lv)
                 if self.an.is_state_write_loop(self.f, s):
                     self.flag(s, "ordered-effect", "persistent state / the graph is written while "
